@@ -58,6 +58,42 @@ theorem dtValue_total (tm : Tmpl) (used : Nat) (b : Bucket) : ∃ r, dtValue tm 
           · exact ⟨_, rfl⟩
       · exact ⟨_, rfl⟩
 
+/-- `Duration.from_nanoseconds` does not raise inside the Duration range -/
+theorem durFromNanos_ok (n : Int) (h0 : DUR_MIN_NANOS ≤ n) (h1 : n ≤ DUR_MAX_NANOS) :
+    durFromNanos n = .ok (n / NPD, n % NPD) := by
+  unfold DUR_MIN_NANOS NPD at h0
+  unfold DUR_MAX_NANOS NPD at h1
+  unfold durFromNanos
+  have hc : checkRange n DUR_MIN_NANOS DUR_MAX_NANOS = .ok () := by
+    unfold checkRange DUR_MIN_NANOS DUR_MAX_NANOS NPD
+    rw [if_neg (by omega)]
+  simp only [hc, bind, Except.bind]
+  by_cases hn : n ≥ 0
+  · rw [if_pos hn]
+    simp only [pure, Except.pure, fdiv_pos n NPD (by decide), fmod_pos n NPD (by decide)]
+  · rw [if_neg hn]
+    have ht : pyTdiv (n + 1) NPD = .ok (Int.tdiv (n + 1) NPD) :=
+      pyTdiv_ok (n + 1) NPD (by decide) (by unfold decBound; omega) (by unfold decBound; omega) (by decide) (by decide)
+    rw [ht]
+    simp only [pure, Except.pure]
+    rw [tdiv_pos _ _ (by decide : (0 : Int) < NPD)]
+    have : ¬ (0 ≤ n + 1) ∨ n = -1 := by omega
+    unfold NPD
+    congr 2
+    · split <;> omega
+    · split <;> omega
+
+/-- `_DurationParseBucket.calculate_value` never raises: the total is range-checked before `from_nanoseconds` -/
+theorem durationValue_total (b : Bucket) : ∃ r, durationValue b = .ok r := by
+  unfold durationValue
+  dsimp only
+  generalize (if b .sign = 1 then -(b .dayOfMonth * NPD + b .hours24 * NPH + b .minutes * NPMin + b .seconds * NPS + b .fraction)
+    else b .dayOfMonth * NPD + b .hours24 * NPH + b .minutes * NPMin + b .seconds * NPS + b .fraction) = n
+  by_cases h : n < DUR_MIN_NANOS ∨ n > DUR_MAX_NANOS
+  · rw [if_pos h]; exact ⟨_, rfl⟩
+  · rw [if_neg h, durFromNanos_ok n (by omega) (by omega)]
+    exact ⟨_, rfl⟩
+
 theorem bucketValue_total (ty : PType) (used : Nat) (b : Bucket) : ∃ r, bucketValue ty used b = .ok r := by
   unfold bucketValue
   cases ty with
@@ -71,6 +107,11 @@ theorem bucketValue_total (ty : PType) (used : Nat) (b : Bucket) : ∃ r, bucket
   | datetime tm =>
     dsimp only
     obtain ⟨o, ho⟩ := dtValue_total tm used b
+    rw [ho]; exact ⟨_, rfl⟩
+  | annual tm td => exact ⟨_, rfl⟩
+  | duration =>
+    dsimp only
+    obtain ⟨o, ho⟩ := durationValue_total b
     rw [ho]; exact ⟨_, rfl⟩
 
 /-- a stepped pattern of any of the modelled types: no exception for any text -/
@@ -283,7 +324,126 @@ theorem handleOffset_grows (cu : Culture) (c : Char) (rest : Text) (st st' : CSt
 def noCalendarField : PType → Bool
   | .time => true
   | .offset => true
+  | .annual _ _ => true
+  | .duration => true
   | _ => false
+
+theorem handleMonthOrDay_grows (month : Bool) (c : Char) (rest : Text) (st st' : CSt) (k : Nat)
+    (h : handleMonthOrDay month c rest st = .ok (st', k)) : Grows st st' := by
+  unfold handleMonthOrDay at h
+  cases h1 : repeatCount c rest 4 with
+  | error e => rw [h1] at h; cases h
+  | ok n =>
+    rw [h1] at h; dsimp only at h
+    generalize hstep : (if decide (n ≤ 2) = true then if month = true then Step.num Slot.monthNum Slot.monthNum n 2 1 99
+      else Step.num Slot.dayOfMonth Slot.dayOfMonth n 2 1 99 else if month = true then Step.monthText n else Step.dayText n) = step at h
+    generalize hb : (if decide (n ≤ 2) = true then if month = true then F.monthNum else F.dayOfMonth
+      else if month = true then F.monthText else F.dayOfWeek) = bit at h
+    have hm : stepModelled step = true := by
+      rw [← hstep]; split <;> split <;> rfl
+    cases h2 : addField (addStep st step) bit with
+    | error e => rw [h2] at h; cases h
+    | ok st1 =>
+      rw [h2] at h; injection h with h; injection h with h _
+      rw [← h]
+      obtain ⟨a, e1, e2⟩ := grows_addStep st step hm
+      exact ⟨a, by rw [addField_steps _ st1 bit h2, e1], e2⟩
+
+theorem handleAnnualDay_grows (c : Char) (rest : Text) (st st' : CSt) (k : Nat)
+    (h : handleAnnualDay c rest st = .ok (st', k)) : Grows st st' := by
+  unfold handleAnnualDay at h
+  cases h1 : repeatCount c rest 2 with
+  | error e => rw [h1] at h; cases h
+  | ok n =>
+    rw [h1] at h; dsimp only at h
+    cases h2 : addField (addStep st (.num .dayOfMonth .dayOfMonth n 2 1 99)) F.dayOfMonth with
+    | error e => rw [h2] at h; cases h
+    | ok st1 =>
+      rw [h2] at h; injection h with h; injection h with h _
+      rw [← h]
+      obtain ⟨a, e1, e2⟩ := grows_addStep st (.num .dayOfMonth .dayOfMonth n 2 1 99) rfl
+      exact ⟨a, by rw [addField_steps _ st1 _ h2, e1], e2⟩
+
+theorem handleTotal_grows (c : Char) (rest : Text) (st : CSt) (maxCount bit : Nat) (maxV : Int) (g s : Slot)
+    (st' : CSt) (k : Nat) (h : handleTotal c rest st maxCount bit maxV g s = .ok (st', k)) : Grows st st' := by
+  unfold handleTotal at h
+  cases h1 : repeatCount c rest maxCount with
+  | error e => rw [h1] at h; cases h
+  | ok n =>
+    rw [h1] at h; dsimp only at h
+    split at h
+    · cases h
+    · cases h2 : addField st bit with
+      | error e => rw [h2] at h; cases h
+      | ok st1 =>
+        rw [h2] at h; dsimp only at h
+        cases h3 : addField st1 F.totalDuration with
+        | error e => rw [h3] at h; cases h
+        | ok st2 =>
+          rw [h3] at h; injection h with h; injection h with h _
+          rw [← h]
+          have e : st2.steps = st.steps := by rw [addField_steps st1 st2 _ h3, addField_steps st st1 _ h2]
+          exact grows_of_steps_eq st st2 _ e (grows_addStep st2 _ rfl)
+
+theorem handleAnnual_grows (cu : Culture) (c : Char) (rest : Text) (st st' : CSt) (k : Nat)
+    (h : handleAnnual cu c rest st = .ok (st', k)) : Grows st st' := by
+  unfold handleAnnual at h
+  cases hc : handleCommon c rest st with
+  | some r => rw [hc] at h; dsimp only at h; rw [h] at hc; exact handleCommon_grows c rest st st' k hc
+  | none =>
+    rw [hc] at h; dsimp only at h
+    repeat' (first
+      | exact handleMonthOrDay_grows _ _ _ _ _ _ h
+      | exact handleAnnualDay_grows _ _ _ _ _ h
+      | exact handleDefault_grows _ _ _ _ h
+      | (injection h with h'; injection h' with h'' _; rw [← h'']; exact grows_addStep _ _ rfl)
+      | cases h
+      | split at h)
+
+theorem handleDuration_grows (cu : Culture) (c : Char) (rest : Text) (st st' : CSt) (k : Nat)
+    (h : handleDuration cu c rest st = .ok (st', k)) : Grows st st' := by
+  unfold handleDuration at h
+  cases hc : handleCommon c rest st with
+  | some r => rw [hc] at h; dsimp only at h; rw [h] at hc; exact handleCommon_grows c rest st st' k hc
+  | none =>
+    rw [hc] at h; dsimp only at h
+    by_cases c0 : c = '.'
+    · rw [if_pos c0] at h; exact handleDot_grows _ _ _ _ _ h
+    rw [if_neg c0] at h
+    by_cases c1 : c = ':'
+    · rw [if_pos c1] at h; injection h with h'; injection h' with h'' _; rw [← h'']; exact grows_addStep _ _ rfl
+    rw [if_neg c1] at h
+    by_cases c2 : c = 'D'
+    · rw [if_pos c2] at h; exact handleTotal_grows _ _ _ _ _ _ _ _ _ _ h
+    rw [if_neg c2] at h
+    by_cases c3 : c = 'H'
+    · rw [if_pos c3] at h; exact handleTotal_grows _ _ _ _ _ _ _ _ _ _ h
+    rw [if_neg c3] at h
+    by_cases c4 : c = 'h'
+    · rw [if_pos c4] at h; exact handlePadded_grows _ _ _ _ _ _ _ _ _ _ h
+    rw [if_neg c4] at h
+    by_cases c5 : c = 'M'
+    · rw [if_pos c5] at h; exact handleTotal_grows _ _ _ _ _ _ _ _ _ _ h
+    rw [if_neg c5] at h
+    by_cases c6 : c = 'm'
+    · rw [if_pos c6] at h; exact handlePadded_grows _ _ _ _ _ _ _ _ _ _ h
+    rw [if_neg c6] at h
+    by_cases c7 : c = 'S'
+    · rw [if_pos c7] at h; exact handleTotal_grows _ _ _ _ _ _ _ _ _ _ h
+    rw [if_neg c7] at h
+    by_cases c8 : c = 's'
+    · rw [if_pos c8] at h; exact handlePadded_grows _ _ _ _ _ _ _ _ _ _ h
+    rw [if_neg c8] at h
+    by_cases c9 : c = 'f' ∨ c = 'F'
+    · rw [if_pos c9] at h; exact handleFraction_grows _ _ _ _ _ h
+    rw [if_neg c9] at h
+    by_cases c10 : c = '+'
+    · rw [if_pos c10] at h; exact handleSingle_grows _ _ _ rfl _ _ h
+    rw [if_neg c10] at h
+    by_cases c11 : c = '-'
+    · rw [if_pos c11] at h; exact handleSingle_grows _ _ _ rfl _ _ h
+    rw [if_neg c11] at h
+    exact handleDefault_grows _ _ _ _ h
 
 theorem compileLoop_modelled (ty : PType) (hty : noCalendarField ty = true) (cu : Culture) : ∀ (fuel : Nat) (text : Text) (st st' : CSt),
     compileLoop ty cu fuel text st = .ok st' → st.steps.all stepModelled = true → st'.steps.all stepModelled = true := by
@@ -312,6 +472,8 @@ theorem compileLoop_modelled (ty : PType) (hty : noCalendarField ty = true) (cu 
           | date => cases hty
           | offset => exact handleOffset_grows cu c rest st st1 k hh
           | datetime tm => cases hty
+          | annual tm td => exact handleAnnual_grows cu c rest st st1 k hh
+          | duration => exact handleDuration_grows cu c rest st st1 k hh
         obtain ⟨added, e1, e2⟩ := g
         exact ih _ st1 st' h (by rw [e1, List.all_append, hs, e2]; rfl)
 
